@@ -68,6 +68,10 @@ class AshesRenderFactory(object):
             status = 200
             template = self.env.load(template_path)
             content = template.render(context)  # TODO: pretty errors?
+            if not isinstance(content, bytes):
+                # text that cannot be encoded (lone surrogates, e.g. from
+                # a surrogate-escaped file name) must not cost the page
+                content = content.encode('utf-8', 'backslashreplace')
             return Response(content, status=status, mimetype=mimetype)
 
         return ashes_render
